@@ -17,6 +17,7 @@ package autoconf
 //@   ensures (err == nil) == readable(name)
 //@   ensures err == nil ==> result0 == fileData(name)
 //@ func ext encoding/json.Unmarshal
+//@   writes-args
 //@   ensures (err == nil) == parses(data)
 //@ func (*Client).listCacheFiles
 //@   assumed
